@@ -290,6 +290,8 @@ struct WriteResult {
     out: Vec<u8>,
     calls: usize,
     fault_seen: bool,
+    /// bytes the write callback had received when each successful mla_archive_flush returned
+    flush_lens: Vec<usize>,
 }
 
 fn c_write(lib: &Lib, p: &Program, level: u32, sched: &Sched) -> WriteResult {
@@ -304,10 +306,11 @@ fn c_write(lib: &Lib, p: &Program, level: u32, sched: &Sched) -> WriteResult {
     let mut ar: *mut c_void = std::ptr::null_mut();
     st.push((lib.archive_new)(&mut cfg, Some(write_cb), Some(flush_cb), ctx, &mut ar));
     if ar.is_null() {
-        return WriteResult { statuses: st, out: env.out.clone(), calls: env.calls, fault_seen: env.fault_seen };
+        return WriteResult { statuses: st, out: env.out.clone(), calls: env.calls, fault_seen: env.fault_seen, flush_lens: Vec::new() };
     }
     let mut handles: BTreeMap<usize, *mut c_void> = BTreeMap::new();
     let mut lens: BTreeMap<usize, u64> = BTreeMap::new();
+    let mut flush_lens: Vec<usize> = Vec::new();
     for o in &p.ops {
         match *o {
             Op::Start(i) => {
@@ -345,11 +348,14 @@ fn c_write(lib: &Lib, p: &Program, level: u32, sched: &Sched) -> WriteResult {
                     st.push((lib.archive_file_close)(ar, &mut fh));
                 }
             }
-            Op::Flush => st.push((lib.archive_flush)(ar)),
+            Op::Flush => {
+                st.push((lib.archive_flush)(ar));
+                flush_lens.push(env.out.len());
+            }
         }
     }
     st.push((lib.archive_close)(&mut ar));
-    WriteResult { statuses: st, out: env.out.clone(), calls: env.calls, fault_seen: env.fault_seen }
+    WriteResult { statuses: st, out: env.out.clone(), calls: env.calls, fault_seen: env.fault_seen, flush_lens }
 }
 
 struct ExtractResult {
@@ -590,7 +596,35 @@ fn run_case(lib: &Lib, c: &Case, rep: &mut Report) {
                         match guard(|| prog::read_all(&r.out, &[0])) {
                             Ok(Ok(got)) => {
                                 if let Some(d) = prog::diff_model(&model, &got) {
-                                    rep.violate(Violation { sig: json!({"kind": "c_written_archive_differs", "side": "write"}), detail: format!("{} with schedule {}: {d}", p.short(), s.json()), replay: rp, weight: s.at.len() as u64 });
+                                    rep.violate(Violation { sig: json!({"kind": "c_written_archive_differs", "side": "write"}), detail: format!("{} with schedule {}: {d}", p.short(), s.json()), replay: rp.clone(), weight: s.at.len() as u64 });
+                                }
+                                // what mla_archive_flush promises: the destination cut where it stood when the flush
+                                // returned is repairable up to what had been appended (same oracle as C14)
+                                let at_flush = p.model_at_flushes();
+                                let c14case = super::c14::Case { p: p.clone(), cfg: Cfg::lvl(L4::Both, *level) };
+                                for (k, fl) in r.flush_lens.iter().enumerate() {
+                                    if k >= at_flush.len() || *fl > r.out.len() {
+                                        continue;
+                                    }
+                                    let prefix = &r.out[..*fl];
+                                    for unauth in [false, true] {
+                                        rep.transitions += 1;
+                                        let crate::sweep::RepairEval::Done(rr) = crate::sweep::repair_eval(prefix, &[0], unauth) else { continue };
+                                        let Some(need) = super::c14::lower_bound(&c14case, &at_flush[k], prefix, unauth) else { continue };
+                                        rep.class("write/flush-cut");
+                                        for (name, want) in &need {
+                                            let gotn = rr.files.get(name).map(|f| f.data.len()).unwrap_or(0);
+                                            if gotn < *want {
+                                                rep.violate(Violation {
+                                                    sig: json!({"kind": "c_flushed_data_lost", "side": "write"}),
+                                                    detail: format!("{} with schedule {}: after mla_archive_flush #{k} the write callback had received {fl} bytes; {name} had {} bytes appended ({want} required) but repair of that prefix recovers {gotn}", p.short(), s.json(), at_flush[k][name]),
+                                                    replay: rp.clone(),
+                                                    weight: s.at.len() as u64,
+                                                });
+                                                break;
+                                            }
+                                        }
+                                    }
                                 }
                             }
                             other => rep.violate(Violation { sig: json!({"kind": "c_written_archive_unreadable", "side": "write"}), detail: format!("{} with schedule {}: {other:?}", p.short(), s.json()), replay: rp, weight: s.at.len() as u64 }),
@@ -680,6 +714,20 @@ pub fn cases(thorough: bool) -> Vec<Case> {
     let mut progs = families::tree(3, if thorough { 6 } else { 5 }, 2, &[0, 1, CHUNK + 1, BLOCK + 1], Entropy::Pattern);
     progs.extend(families::bases(Entropy::Noise));
     progs.push(Program::new(vec![Op::Start(0), Op::Append(0, 5), Op::Flush, Op::Append(0, CHUNK), Op::Flush, Op::End(0), Op::Flush], Entropy::Pattern));
+    // flush placements: a flush after every operation of a few interleaved programs
+    for base in [
+        vec![Op::Start(0), Op::Append(0, 1), Op::Start(1), Op::Append(1, CHUNK + 1), Op::Append(0, BLOCK + 1), Op::End(0), Op::End(1)],
+        vec![Op::Add(0, 3), Op::Start(1), Op::Append(1, 2 * CHUNK), Op::End(1)],
+    ] {
+        for e in [Entropy::Pattern, Entropy::Noise] {
+            let mut ops = Vec::new();
+            for o in &base {
+                ops.push(*o);
+                ops.push(Op::Flush);
+            }
+            progs.push(Program::new(ops, e));
+        }
+    }
     for (k, p) in progs.iter().enumerate() {
         for (si, s) in [Sched::default(), Sched { uniform: Some(1), at: BTreeMap::new() }, Sched { uniform: Some(7), at: BTreeMap::new() }].into_iter().enumerate() {
             // faults / single deviations at every callback index: on a subset (every 6th program), default schedule
@@ -774,7 +822,7 @@ pub fn run(started: Instant) -> i32 {
         rep,
         Meta {
             level: "model_checking",
-            rule: "libmla.so built from the working tree is loaded with dlopen and driven through its C entry points in worker processes. (1) every program of a bounded tree (and rich bases, flush placements) expressed as mla_archive_file_new/append/flush/close + mla_archive_close, with write callbacks that accept everything / 1 byte / 7 bytes per call; the collected bytes are read by the Rust ArchiveReader and compared with the reference model. (2) archives written by the Rust writer (4 layer combos) extracted with mla_roarchive_extract through read callbacks returning everything / 1 / 5 bytes and per-file write callbacks accepting partial buffers: exact bytes per file; also with a file callback that declines every other file (subset extraction: nothing for the declined ones); base programs also with non-ASCII, nested and spaced names in both directions. (3) for a subset of (1)/(2), at EVERY callback invocation index: accept 1 byte, accept half, or report failure - a reported failure must surface as a non-success status no later than the close; 37 NULL-pointer / cleared-handle / double-close / handle-after-failed-call placements must return a non-success status. No crash, signal or panic across the FFI in any case. states = distinct (case, schedule)".to_string(),
+            rule: "libmla.so built from the working tree is loaded with dlopen and driven through its C entry points in worker processes. (1) every program of a bounded tree (and rich bases, flush placements) expressed as mla_archive_file_new/append/flush/close + mla_archive_close, with write callbacks that accept everything / 1 byte / 7 bytes per call; the collected bytes are read by the Rust ArchiveReader and compared with the reference model; where the program calls mla_archive_flush, the bytes the callback had received when it returned are repaired and must hold what had been appended (C14's oracle). (2) archives written by the Rust writer (4 layer combos) extracted with mla_roarchive_extract through read callbacks returning everything / 1 / 5 bytes and per-file write callbacks accepting partial buffers: exact bytes per file; also with a file callback that declines every other file (subset extraction: nothing for the declined ones); base programs also with non-ASCII, nested and spaced names in both directions. (3) for a subset of (1)/(2), at EVERY callback invocation index: accept 1 byte, accept half, or report failure - a reported failure must surface as a non-success status no later than the close; 37 NULL-pointer / cleared-handle / double-close / handle-after-failed-call placements must return a non-success status. No crash, signal or panic across the FFI in any case. states = distinct (case, schedule)".to_string(),
             exhaustive: true,
             bounds: json!({"cases": cs.len(), "null_placements": N_NULL}),
             assumptions: vec!["the C API only offers the default layers (compress+encrypt) for writing".to_string(), "scaled constants".to_string()],
